@@ -4,7 +4,7 @@
    the property theorems, each closed by `exact`, pinned by `Check`, followed by
    `Print Assumptions`. *)
 From Coq Require Import NArith List Bool.
-From SdSd Require Import Poly CrcModel CrcProofs SdModel SdSpec SdBound SdSafety SdCapacity SdTheorems.
+From SdSd Require Import Poly CrcModel CrcProofs SdModel SdSpec SdBound SdSafety SdCapacity SdTheorems SdCardLemmas SdSystem SdInit SdTransfer SdMulti SdLegal.
 Import ListNotations.
 Open Scope N_scope.
 
@@ -130,6 +130,27 @@ Theorem C13_failed_init : forall (dstate : Type) (spi : dstate -> spi_call -> ds
   acquire dstate spi o s = (r, s') -> r <> Ok tt -> ctype s' = ctype s.
 Proof. exact failed_init_keeps_ctype. Qed.
 
+(* ---- recovery (partial) ----------------------------------------------------------------------------
+   FULL STATEMENT WANTED: from ANY driver state and ANY state a LEGALCARD can be in once it responds
+   again, mark_card_uninit followed by a call re-initialises the card and the call does its work.
+   PROVED (C13_recovers_partial): the same for every LEGALCARD state in which the card can receive a
+   command frame - no frame half received, not inside a data transfer (c_fbuf = [], c_phase = PIdle;
+   busy or not, idle or ready, CRC on or off, any pending output, any driver belief about the card
+   type) - and a trace so far that leaves the host between commands.  MISSING: card states in the
+   middle of a data block / multi-block stream (there CMD0 is swallowed as data until the block ends;
+   the driver's CMD0 retries cover it, which is not proved), and independence from the earlier trace. *)
+Theorem C13_recovers_partial : forall (o : opts) (kd : kind) (csd : list N) (tim : timing),
+  legal_timing tim -> addressable kd csd -> is_csd csd -> CSD_STRUCTURE csd = 0 \/ CSD_STRUCTURE csd = 1 ->
+  forall (s : st card) (mem : N -> list N) (c : api_call),
+  k_kind (dev s) = kd -> k_csd (dev s) = csd -> k_tim (dev s) = tim ->
+  c_fbuf (dev s) = [] -> c_phase (dev s) = PIdle -> c_mem (dev s) = mem ->
+  (exists h, mon (tr s) = inl h /\ h_mode h = HFree) ->
+  mem_ok mem -> in_range csd c ->
+  exists s1 s', api card card_spi o CMarkUninit s = (Ok VUnit, s1) /\
+                api card card_spi o c s1 = (Ok (snd (spec_step kd csd mem c)), s') /\
+                Inv o kd csd tim s' (fst (spec_step kd csd mem c)).
+Proof. exact recovers. Qed.
+
 (* non-vacuity: a dead bus (every call fails) makes a read fail with Transport after one call *)
 Definition dead_bus : ostate := {| o_miso := []; o_pad := 255; o_calln := 0; o_fails := fun _ => true |}.
 Example C13_dead_bus :
@@ -154,3 +175,4 @@ Print Assumptions C13_write_rejected.
 Print Assumptions C13_write_status.
 Print Assumptions C13_bad_token.
 Print Assumptions C13_failed_init.
+Print Assumptions C13_recovers_partial.
